@@ -10,12 +10,13 @@ import ExecnetVerif.Driver.BootstrapIO
 import ExecnetVerif.Driver.RemoteExecIO
 import ExecnetVerif.Driver.ExitIO
 import ExecnetVerif.Driver.TermIO
+import ExecnetVerif.Driver.FrameIO
 import ExecnetVerif.Driver.NetIO
 import ExecnetVerif.Driver.NetCheck
 
 open ExecnetVerif
 
-def handlers : List (List String → Option String) := [serHandle, chanFileHandle, xspecHandle, groupHandle, rsyncHandle, bootHandle, rexecHandle, exitHandle, termHandle, Net.netHandle, Net.netCheckHandle]
+def handlers : List (List String → Option String) := [serHandle, chanFileHandle, xspecHandle, groupHandle, rsyncHandle, bootHandle, rexecHandle, exitHandle, termHandle, frameHandle, Net.netHandle, Net.netCheckHandle]
 
 def dispatch (line : String) : String :=
   let toks := (line.splitOn " ").filter (· ≠ "")
